@@ -126,6 +126,10 @@ class SymEx:
         self.stop_blocks = set()           # region execution: reaching one of these blocks ends the path
         self.inlined = set()
         self.opaque_calls = set()
+        self.opaque_mut_calls = set()   # uninterpreted callees that received a `&mut`
+        self.concrete_asserts = set()   # (body path, block) of Assert terminators whose condition evaluated to a constant
+        self.symbolic_asserts = set()   # ... whose condition stayed symbolic on some path
+        self.failed_asserts = set()     # ... whose constant condition was the failing one on some path
         self._loopfree = {}
         self.aborted = []
 
@@ -264,6 +268,20 @@ class SymEx:
     def read_place(self, st, fid, place):
         v = st.frames[fid].get(place['l'], ('unk', 'uninit _%d' % place['l']))
         for e in place['p']:
+            if isinstance(e, dict) and ('idx' in e or 'cidx' in e) and 'f' not in e:
+                # element of an array / finite sequence selected by a known index
+                k = e.get('cidx') if 'cidx' in e else None
+                if k is None:
+                    iv = st.frames[fid].get(e['idx'])
+                    k = int(iv[1]) if is_num(iv) and iv[1].denominator == 1 else None
+                w = v
+                for _ in range(3):
+                    if isinstance(w, tuple) and w[0] == 'ref':
+                        w = self.load(st, w)
+                items = self.as_seq(st, w)
+                if k is not None and items is not None and not e.get('from_end') and 0 <= k < len(items):
+                    v = items[k]
+                    continue
             v = self.project(st, v, e)
         return v
 
@@ -318,7 +336,8 @@ class SymEx:
 
     def promoted(self, st, c):
         """Value of a promoted constant: evaluate its (straight-line) initialiser exported with the owning body."""
-        owner = self.f.body(c['uneval']) or self.f.helpers.get(self.f.norm(c['uneval']))
+        owner = self.f.body(c['uneval']) or self.f.helpers.get(self.f.norm(c['uneval'])) or \
+            getattr(self.f, 'consts', {}).get(self.f.norm(c['uneval']))        # (a promoted inside a named constant's initialiser)
         if owner is None:
             return None
         for pr in owner.raw.get('promoted') or []:
@@ -375,6 +394,11 @@ class SymEx:
                 if a[0] == 'bool':
                     return ('bool', not a[1])
                 return ('un', 'Not', a)
+            if rv['op'] == 'PtrMetadata':
+                # the length of a slice whose elements are known
+                items = self.as_seq(st, a)
+                if items is not None:
+                    return NUM(len(items))
             return APP('unop:' + rv['op'], a)
         if r in ('ref', 'rawptr'):
             loc = self.locate(st, fid, rv['place'])
@@ -500,10 +524,14 @@ class SymEx:
                 continue
             if k == 'assert':
                 c = self.operand(st, fid, t['cond'])
+                key = (body.path, bb)
                 if c[0] == 'bool':
+                    self.concrete_asserts.add(key)
                     if c[1] != t['expected']:
+                        self.failed_asserts.add(key)
                         return
                 else:
+                    self.symbolic_asserts.add(key)
                     st.pc.append(('assume', c, t['expected'], t['kind']))
                 bb = t['target']
                 continue
@@ -618,6 +646,10 @@ class SymEx:
                 raise PathAbort('callee has no returning path')
             return res
         self.opaque_calls.add(name)
+        if any(str(a.get('ty', '')).startswith('&mut') for a in t.get('args', []) if isinstance(a, dict)):
+            # an uninterpreted call that could write through a `&mut` argument: values read back through that reference
+            # afterwards are not known (analyses that need exhaustiveness check this flag)
+            self.opaque_mut_calls.add(name)
         app = APP(short_name(name), *[self.deep(st, a) for a in args])
         if self.seq_sources and any(name.endswith(x) for x in self.seq_sources):
             # a sequence of unknown length: {elem($x) | $x in base, position $i >= start}
